@@ -43,11 +43,20 @@ def install(I):
     M[b + "all"] = lambda I, x: _all(I, x)
     M[b + "sum"] = lambda I, x, start=0: _sum(I, x, start)
     M[b + "float"] = lambda I, x=0: core.to_float(x)
+    M[b + "setattr"] = lambda I, o, n, v: I.setattr_(o, n, v)
+    M[b + "getattr"] = m_getattr
+    M[b + "hasattr"] = m_hasattr
+    M[b + "open"] = m_open
     M[b + "exit"] = m_exit
     M[b + "quit"] = m_exit
     M[b + "Exception"] = ExcClass("Exception")
     M[b + "None"] = None
+    M[b + "object"] = External("builtins.object")
+    M[b + "NotImplemented"] = External("builtins.NotImplemented")
     M["sys.exit"] = m_exit
+    M["ipaddress.IPv4Address"] = lambda I, a: _ipaddr(I, a, 4)
+    M["ipaddress.IPv6Address"] = lambda I, a: _ipaddr(I, a, 16)
+    M["ipaddress.addr.__str__"] = lambda I, o: IpStr(o.attrs["packed"], o.attrs["version"])
     M["typing.cast"] = lambda I, t, v: v
     M["copy.deepcopy"] = m_deepcopy
     M["copy.copy"] = m_deepcopy
@@ -208,6 +217,9 @@ def m_str(I, x=""):
         return "None"
     if hasattr(x, "pyvc_str"):
         return x.pyvc_str(I)
+    from .interp import Obj
+    if isinstance(x, Obj) and x.kind == "ipaddress.addr":
+        return IpStr(x.attrs["packed"], x.attrs["version"])
     return OpaqueStr(x)
 
 
@@ -293,6 +305,71 @@ def _sum(I, x, start):
     for v in I.iterate(x):
         r = r + v
     return r
+
+
+def m_getattr(I, o, n, *d):
+    try:
+        return I.getattr_(o, n)
+    except PyExc as e:
+        if e.cls == "AttributeError" and d:
+            return d[0]
+        raise
+
+
+def m_hasattr(I, o, n):
+    try:
+        I.getattr_(o, n)
+        return True
+    except PyExc as e:
+        if e.cls == "AttributeError":
+            return False
+        raise
+
+
+def m_open(I, *a, **k):
+    h = I.models.get("hook.open")
+    if h is None:
+        raise Unsupported("open() without a file model supplied by the contract")
+    return h(I, *a, **k)
+
+
+class IpStr:
+    """the textual form of an IP address: opaque, but remembers the packed address it denotes"""
+
+    def __init__(self, packed, version, encoded=False):
+        self.packed = packed
+        self.version = version
+        self.encoded = encoded
+
+    def pyvc_eq(self, I, o):
+        if isinstance(o, IpStr):
+            return bytes_eq(self.packed, o.packed) if self.version == o.version else False
+        return False
+
+    def pyvc_getattr(self, I, name):
+        from .interp import Builtin
+        if name == "encode":       # scapy accepts str and bytes spellings of the same address (assumed, DESIGN 3.5)
+            return Builtin("str.encode", lambda I, *a: IpStr(self.packed, self.version, True))
+        if name == "__str__":
+            return Builtin("str.__str__", lambda I: self)
+        raise Unsupported("method %s on an address string" % name)
+
+    def pyvc_str(self, I):
+        return self
+
+
+def _ipaddr(I, a, n):
+    from .interp import Obj
+    if isinstance(a, IpStr):
+        a = a.packed
+    if not is_byteslike(a):
+        raise Unsupported("ip address from %s" % type(a).__name__)
+    v = to_bytes_val(a)
+    ln = v.length
+    bad = core.cmp_num("!=", ln, n)
+    if I.truth(bad):
+        raise PyExc("ValueError", "AddressValueError: wrong packed length")
+    return Obj(None, {"packed": v, "version": 4 if n == 4 else 6}, kind="ipaddress.addr")
 
 
 def m_exit(I, *a):
@@ -520,11 +597,11 @@ def in_model(I, a, b):
     if isinstance(b, DictView) and b.kind == "keys":
         b = b.d
     if isinstance(b, dict):
-        if isinstance(a, (SymInt, SymBool)):
+        if isinstance(a, (SymInt, SymBool)) or (isinstance(a, int) and any(_symkey(k) for k in b)):
             r = False
             for k in b:
-                if isinstance(k, int):
-                    r = core.bor(r, mk_bool(T(a) == k))
+                if isinstance(k, (int, SymInt)):
+                    r = core.bor(r, core.cmp_num("==", a, k))
             return r
         if isinstance(a, SymBytes) and not (isinstance(a, BList) and a.concrete() is not None):
             r = False
@@ -556,7 +633,14 @@ def in_model(I, a, b):
             raise Unsupported("symbolic substring test")
     if hasattr(b, "pyvc_contains"):
         return b.pyvc_contains(I, a)
+    from .interp import Obj
+    if isinstance(b, Obj) and b.kind == "argparse.Namespace" and isinstance(a, str):
+        return a in b.attrs
     raise Unsupported("'in' on %s" % type(b).__name__)
+
+
+def _symkey(k):
+    return isinstance(k, (SymInt, SymBool)) or (isinstance(k, SymBytes) and not (isinstance(k, BList) and k.concrete() is not None))
 
 
 def _norm_index(I, i, n, what="index"):
@@ -613,9 +697,9 @@ def getitem(I, o, k):
         except IndexError:
             raise PyExc("IndexError", "list index out of range")
     if isinstance(o, dict):
-        if isinstance(k, (SymInt, SymBool)) or (isinstance(k, SymBytes) and not (isinstance(k, BList) and k.concrete() is not None)):
-            # symbolic key against concrete keys: fork per key
-            for kk in o:
+        if _symkey(k) or any(_symkey(kk) for kk in o):
+            # symbolic key (or symbolic keys in the dict): fork per key
+            for kk in list(o):
                 if I.truth(eq_model(I, k, kk)):
                     return o[kk]
             raise PyExc("KeyError", "symbolic key")
@@ -681,6 +765,13 @@ def setitem(I, o, k, v):
             raise PyExc("IndexError", "list assignment index out of range")
         return
     if isinstance(o, dict):
+        if _symkey(k) or any(_symkey(kk) for kk in o):
+            for kk in list(o):
+                if I.truth(eq_model(I, k, kk)):
+                    o[kk] = v
+                    return
+            o[k] = v
+            return
         o[I.dict_key(k)] = v
         return
     if hasattr(o, "pyvc_setitem"):
